@@ -1098,7 +1098,10 @@ class Hist:
                 raise Skip("no group")
             items.append(a.model.groups.get_by_id(gid))
         if op.get("as") == "id":
-            a.model.remove_groups(op["ids"][0])  # "a string representing group id" (docstring)
+            try:
+                a.model.remove_groups(op["ids"][0])  # "a string representing group id" (docstring)
+            except (AttributeError, TypeError) as e:
+                raise Violation("unexpected_exception", {"what": "remove_groups(<group id>) - documented - raises", "exception": repr(e)[:200]}, culprit=op)
             self.stats["probe:remove_groups_by_id_string"] += 1
         else:
             a.model.remove_groups(items)
